@@ -23,7 +23,7 @@ type parseOutcome struct {
 	MainDone  bool
 }
 
-var parserFaultKinds = []string{"preemptions", "stall_steps", "park_on_full_channel", "park_on_empty_channel", "park_on_held_mutex",
+var parserFaultKinds = []string{"preemptions", "stall_steps", "access_stalls", "park_on_full_channel", "park_on_empty_channel", "park_on_held_mutex",
 	"scanner_parked_on_full_token_queue", "parser_parked_on_empty_token_queue", "parser_died_with_tokens_in_flight"}
 
 // simParse runs ParseSource(src) as the main task; the scanner goroutine is
